@@ -167,6 +167,9 @@ impl RawOpaquePool {
     #[must_use]
     #[inline]
     pub fn len(&self) -> usize {
+        #[cfg(folo_verif)]
+        crate::__verif::notify_pool_access(std::ptr::from_ref(self), false);
+
         self.length
     }
 
@@ -178,6 +181,9 @@ impl RawOpaquePool {
     #[must_use]
     #[inline]
     pub fn capacity(&self) -> usize {
+        #[cfg(folo_verif)]
+        crate::__verif::notify_pool_access(std::ptr::from_ref(self), false);
+
         // Wrapping here would imply capacity is greater than virtual memory,
         // which is impossible because we can never create that many slabs.
         self.slabs
@@ -198,6 +204,9 @@ impl RawOpaquePool {
     ///
     /// Panics if the new capacity would exceed the size of virtual memory (`usize::MAX`).
     pub fn reserve(&mut self, additional: usize) {
+        #[cfg(folo_verif)]
+        crate::__verif::notify_pool_access(std::ptr::from_ref(self), true);
+
         let required_capacity = self
             .len()
             .checked_add(additional)
@@ -226,6 +235,9 @@ impl RawOpaquePool {
     /// on the specific pool structure and which objects remain in the pool.
     #[cfg_attr(test, mutants::skip)] // Vacant slot cache mutation - hard to test. Revisit later.
     pub fn shrink_to_fit(&mut self) {
+        #[cfg(folo_verif)]
+        crate::__verif::notify_pool_access(std::ptr::from_ref(self), true);
+
         // Find the last non-empty slab by scanning from the end
         let new_len = self
             .slabs
@@ -373,6 +385,9 @@ impl RawOpaquePool {
         F: FnOnce(&mut MaybeUninit<T>),
         T: 'static,
     {
+        #[cfg(folo_verif)]
+        crate::__verif::notify_pool_access(std::ptr::from_ref(self), true);
+
         let slab_index = self.index_of_slab_to_insert_into();
 
         // SAFETY: We just received knowledge that there is a slab with a vacant slot at this index.
@@ -409,6 +424,9 @@ impl RawOpaquePool {
     ///
     /// The caller must guarantee that the handle is for an object currently present in this pool.
     pub unsafe fn remove<T: ?Sized>(&mut self, handle: impl Into<RawPooled<T>>) {
+        #[cfg(folo_verif)]
+        crate::__verif::notify_pool_access(std::ptr::from_ref(self), true);
+
         let handle = handle.into();
 
         // SAFETY: Caller guarantees the handle is valid for this pool.
@@ -448,6 +466,9 @@ impl RawOpaquePool {
     /// The caller must guarantee that the handle is for an object currently present in this pool.
     #[must_use]
     pub unsafe fn remove_unpin<T: Unpin>(&mut self, handle: impl Into<RawPooled<T>>) -> T {
+        #[cfg(folo_verif)]
+        crate::__verif::notify_pool_access(std::ptr::from_ref(self), true);
+
         let handle = handle.into();
 
         const {
@@ -490,6 +511,9 @@ impl RawOpaquePool {
     #[must_use]
     #[inline]
     pub fn iter(&self) -> RawOpaquePoolIterator<'_> {
+        #[cfg(folo_verif)]
+        crate::__verif::notify_pool_access(std::ptr::from_ref(self), false);
+
         RawOpaquePoolIterator::new(self)
     }
 
